@@ -196,7 +196,7 @@ func c17Judge(pre *world.State, post *world.State, sts *appsv1.StatefulSet, init
 				b, _ := json.Marshal(want.Spec)
 				if string(a) != string(b) {
 					out = append(out, "delete-with-different-spec|built-in set deleted while the Advanced set's spec differs")
-				} else if d := jsonIncluded(toTree(sts.Spec), toTree(adv.Spec), "$.spec"); d != "" {
+				} else if d := jsonIncluded(toTree(specWithoutDefaultRetention(sts)), toTree(adv.Spec), "$.spec"); d != "" {
 					// the reference is the built-in object itself, not what the helper's own conversion makes of it
 					out = append(out, "delete-with-different-spec|built-in set deleted while the Advanced set's spec lacks what the built-in spec says: "+d)
 				}
@@ -384,7 +384,7 @@ func init() {
 			depth = 3
 		}
 		kinds := []string{world.FErr500, world.FTimeout, world.FConflict, world.FGone, world.FExists, world.FExistsOther, world.FCrashBefore, world.FCrashAfter}
-		rep.Rule = fmt.Sprintf("the real helper.Upgrade on the API model: selector{app=web | app In (web) | app=web and app Exists | app Exists | app Exists and tier NotIn (cache) | app=web and canary DoesNotExist} x revision populations of size 0..3 over {matching, non-matching, foreign-owned} x Advanced set{absent, present equal, present different, present with a superset of the spec (extra template labels/annotations, node selector, optional fields)}; for every API call position of the run x fault kind %v applicable to the verb, then re-run from the resulting state with a further fault at every position, to depth %d, finally re-run without faults; oracle: at the delete of the built-in set an Advanced set with equal spec and status exists, propagation is Orphan, every revision of the set (matched by the selector at the start and controlled by the built-in set or by nobody) carries the marker and no longer matches the selector; no write on pods/claims; a fault-free re-run succeeds and the final state equals the uninterrupted run's (UIDs of the new object normalised; not compared when a `gone` or `existsOther` fault, i.e. a concurrent deletion or a concurrent creation of a different object by someone else, changed the world). Built-in sets whose status says zero replicas (scaled to zero, or lagging behind existing pods) are upgraded once each under the same oracle (orphan propagation whatever the status says). Built-in sets whose spec uses a field the Advanced API does not have (start ordinal, minReadySeconds, claim retention policy) are run once each: the built-in set may only go if the Advanced spec says everything the built-in spec says (judged against the built-in object, not against the helper's own conversion), and a helper that declines leaves no change behind. Non-trivial = at least one fault injected.", kinds, depth)
+		rep.Rule = fmt.Sprintf("the real helper.Upgrade on the API model: selector{app=web | app In (web) | app=web and app Exists | app Exists | app Exists and tier NotIn (cache) | app=web and canary DoesNotExist} x revision populations of size 0..3 over {matching, non-matching, foreign-owned} x Advanced set{absent, present equal, present different, present with a superset of the spec (extra template labels/annotations, node selector, optional fields)}; for every API call position of the run x fault kind %v applicable to the verb, then re-run from the resulting state with a further fault at every position, to depth %d, finally re-run without faults; oracle: at the delete of the built-in set an Advanced set with equal spec and status exists, propagation is Orphan, every revision of the set (matched by the selector at the start and controlled by the built-in set or by nobody) carries the marker and no longer matches the selector; no write on pods/claims; a fault-free re-run succeeds and the final state equals the uninterrupted run's (UIDs of the new object normalised; not compared when a `gone` or `existsOther` fault, i.e. a concurrent deletion or a concurrent creation of a different object by someone else, changed the world). Built-in sets whose status says zero replicas (scaled to zero, or lagging behind existing pods) are upgraded once each under the same oracle (orphan propagation whatever the status says). Built-in sets whose spec uses a field the Advanced API does not have (start ordinal, minReadySeconds, a claim retention policy that deletes; the default policy Retain/Retain must not stand in the way) are run once each: the built-in set may only go if the Advanced spec says everything the built-in spec says (judged against the built-in object, not against the helper's own conversion), and a helper that declines leaves no change behind. Non-trivial = at least one fault injected.", kinds, depth)
 		rep.Assumptions = []string{"the caller re-runs the helper with the same built-in object it started with", "API model of DESIGN.md Appendix A; the built-in controller and the garbage collector are not running during the upgrade"}
 		var cases []c17Case
 		var revPops [][]string
@@ -447,9 +447,43 @@ func c17Unrepresentable(rep *explore.Report) {
 	extras := map[string]func(*appsv1.StatefulSet){
 		"spec.ordinals.start=5":   func(s *appsv1.StatefulSet) { s.Spec.Ordinals = &appsv1.StatefulSetOrdinals{Start: start} },
 		"spec.minReadySeconds=10": func(s *appsv1.StatefulSet) { s.Spec.MinReadySeconds = minReady },
-		"spec.persistentVolumeClaimRetentionPolicy": func(s *appsv1.StatefulSet) {
+		"spec.persistentVolumeClaimRetentionPolicy=Delete/Retain": func(s *appsv1.StatefulSet) {
 			s.Spec.PersistentVolumeClaimRetentionPolicy = &appsv1.StatefulSetPersistentVolumeClaimRetentionPolicy{WhenDeleted: appsv1.DeletePersistentVolumeClaimRetentionPolicyType, WhenScaled: appsv1.RetainPersistentVolumeClaimRetentionPolicyType}
 		},
+	}
+	// the claim retention policy every newer API server fills in (Retain/Retain) says what the Advanced controller does
+	// anyway: such a set must be upgraded, not declined
+	for _, adv := range []string{"absent", "equal"} {
+		c := c17Case{Selector: "matchLabels", Revs: []string{"match", "match"}, Adv: adv}
+		seed, sts := c.build()
+		sts.Spec.PersistentVolumeClaimRetentionPolicy = &appsv1.StatefulSetPersistentVolumeClaimRetentionPolicy{WhenDeleted: appsv1.RetainPersistentVolumeClaimRetentionPolicyType, WhenScaled: appsv1.RetainPersistentVolumeClaimRetentionPolicyType}
+		seed.API.BSets["web"] = sts
+		seed.SyncCaches()
+		w.Lag = 0
+		w.Load(seed)
+		selr, _ := metav1.LabelSelectorAsSelector(sts.Spec.Selector)
+		var initial []string
+		for _, k := range world.SortedKeys(seed.API.Revs) {
+			r := seed.API.Revs[k]
+			if ref := oracle.ControllerOf(r); selr.Matches(labels.Set(r.Labels)) && (ref == nil || ref.UID == sts.UID) {
+				initial = append(initial, k)
+			}
+		}
+		run := c17Upgrade(w, sts, nil)
+		label := fmt.Sprintf("built-in set with the default claim retention policy (Retain/Retain), %s", c)
+		rep.AddStates(1, 1)
+		rep.Count(sha16(label), true, "default retention policy")
+		if run.err != nil || w.S.API.BSets["web"] != nil {
+			rep.Violation("C17", "uninterrupted-run-fails", fmt.Sprintf("%s: the helper does not complete although no call failed: err=%v", label, run.err), func() interface{} {
+				return map[string]interface{}{"kind": "c17", "case": label}
+			})
+		}
+		for _, v := range c17Judge(seed, w.S.Clone(), sts, initial, run) {
+			p := strings.SplitN(v, "|", 2)
+			rep.Violation("C17", p[0], label+": "+p[1], func() interface{} {
+				return map[string]interface{}{"kind": "c17", "case": label}
+			})
+		}
 	}
 	// a set that runs no pod at the moment (scaled to zero with its history kept, or a status that lags behind) is
 	// representable; it is here for the delete options: orphan propagation whatever the status says
@@ -531,4 +565,14 @@ func c17Unrepresentable(rep *explore.Report) {
 			}
 		}
 	}
+}
+
+// specWithoutDefaultRetention is the built-in spec as far as it says something an Advanced set could fail to do: the
+// claim retention policy Retain/Retain is how the Advanced controller treats claims in any case.
+func specWithoutDefaultRetention(sts *appsv1.StatefulSet) appsv1.StatefulSetSpec {
+	sp := *sts.Spec.DeepCopy()
+	if p := sp.PersistentVolumeClaimRetentionPolicy; p != nil && (p.WhenDeleted == "" || p.WhenDeleted == appsv1.RetainPersistentVolumeClaimRetentionPolicyType) && (p.WhenScaled == "" || p.WhenScaled == appsv1.RetainPersistentVolumeClaimRetentionPolicyType) {
+		sp.PersistentVolumeClaimRetentionPolicy = nil
+	}
+	return sp
 }
